@@ -237,7 +237,7 @@ def rows_byte_order():
                 body += "  1 [+%s]  Bb  b\n" % size
             okk = ok and (kind == "anon" or size in ("1", "k"))
             out.append(("bits-field-size %s %s" % (kind, size), head + body, okk if size not in ("8",) or kind == "anon" else False))
-    # a $default applies to its own subtree only: neither to later siblings nor to imported modules
+    # a $default applies to its own subtree only (fixed_size rows follow in rows_attributes): neither to later siblings nor to imported modules
     out.append(("byte-order default-does-not-leak-to-later-struct",
                 'struct Aa:\n  [$default byte_order: "BigEndian"]\n  0 [+2]  UInt  x\nstruct Bb:\n  0 [+2]  UInt  y\n', False))
     out.append(("byte-order default-does-not-leak-to-earlier-struct",
@@ -317,6 +317,25 @@ def rows_attributes():
     return out
 
 
+def rows_fixed_size():
+    """An explicit [fixed_size_in_bits: N] must equal the real size: every N within 9 bits of it, for structs and bits."""
+    out = []
+    for nbytes in (1, 3, 8):
+        true = 8 * nbytes
+        for N in sorted(set(list(range(true - 9, true + 10)) + [0, 2 * true])):
+            if N < 0:
+                continue
+            src = LE + "struct Ss:\n  [fixed_size_in_bits: %d]\n  0 [+%d]  UInt:8[%d]  a\n" % (N, nbytes, nbytes)
+            out.append(("fixed-size struct %d bytes marked %d" % (nbytes, N), src, N == true))
+    for nbits in (5, 12, 64):
+        for N in sorted(set(list(range(nbits - 3, nbits + 4)) + [8 * ((nbits + 7) // 8)])):
+            if N < 0:
+                continue
+            src = "bits Bb:\n  [fixed_size_in_bits: %d]\n  0 [+%d]  UInt  a\n" % (N, nbits)
+            out.append(("fixed-size bits %d marked %d" % (nbits, N), src, N == nbits))
+    return out
+
+
 def rows_reserved():
     e = common.emb()
     out = []
@@ -357,7 +376,7 @@ def rows_reserved():
 
 
 def all_rows(tier):
-    return rows_scalar() + rows_enum(tier) + rows_bits() + rows_arrays() + rows_byte_order() + rows_attributes() + rows_reserved()
+    return rows_scalar() + rows_enum(tier) + rows_bits() + rows_arrays() + rows_byte_order() + rows_attributes() + rows_fixed_size() + rows_reserved()
 
 
 _ROWS = {}
